@@ -398,8 +398,9 @@ namespace GeographicLib {
       // The last condition is that M0 = -1 implies N0 = -1.
       throw GeographicErr("Bad degree and order " +
                           Utility::str(N0) + " " + Utility::str(M0));
-    // Csize and Ssize are computed with int arithmetic
-    if ((M0 + 1LL) * (2LL * N0 - M0 + 2) / 2 > numeric_limits<int>::max())
+    // Csize and Ssize are computed with int arithmetic (the product here is
+    // formed before dividing by 2)
+    if ((M0 + 1LL) * (2LL * N0 - M0 + 2) > numeric_limits<int>::max())
       throw GeographicErr("Degree and order too large " +
                           Utility::str(N0) + " " + Utility::str(M0));
     N = truncate ? min(N, N0) : N0;
